@@ -251,6 +251,9 @@ def op_operator_batch(task):
     import operator
 
     ops = {"+": operator.add, "-": operator.sub, "*": operator.mul, "@": operator.matmul}
+    from .kernels import set_capacity
+
+    set_capacity(task.get("cap"))   # outside hook: initial capacity of growable output arrays
     outs = []
     for c in task["cases"]:
         sys.stdout.write("@@" + json.dumps({"id": task["id"], "progress": c["cid"]}) + "\n")
@@ -641,7 +644,32 @@ def op_concurrency(task):
         import time as _time
 
         hung = False
-        if rnd.get("schedule") is None:
+        if rnd.get("hammer"):
+            # many overlapping calls of (mostly) cached kernels with a tiny switch interval and no recording: only the
+            # results are compared with the sequential ones
+            C.mode = "free"
+            n = rnd["hammer"]
+            bad = []
+
+            def hbody(tid, name):
+                try:
+                    for _ in range(n):
+                        r = _conc_call(reqs[name])
+                        if _raw(r) != alone[name]:
+                            bad.append((tid, name))
+                            break
+                    results[tid] = alone[name] if not any(b[0] == tid for b in bad) else None
+                except Exception as e:  # noqa: BLE001
+                    errors[tid] = f"{type(e).__name__}: {e}"[:200]
+
+            barrier = threading.Barrier(len(threads))
+            ths = [threading.Thread(target=lambda tid=tid, name=name: (barrier.wait(), hbody(tid, name))) for tid, name in threads]
+            for t in ths:
+                t.start()
+            for t in ths:
+                t.join(timeout=300)
+            hung = any(t.is_alive() for t in ths)
+        elif rnd.get("schedule") is None:
             C.mode = "free"
             barrier = threading.Barrier(len(threads))
             ths = [threading.Thread(target=lambda tid=tid, name=name: (barrier.wait(), body(tid, name))) for tid, name in threads]
@@ -693,7 +721,7 @@ def op_concurrency(task):
             for t in ths:
                 t.join(timeout=20)
             hung = hung or any(t.is_alive() for t in ths)
-        rounds_out.append({"rid": rnd["rid"], "events": [e for e in C.events if e["ev"] not in ("start", "dims")],
+        rounds_out.append({"rid": rnd["rid"], "events": [e for e in C.events if e["ev"] not in ("start", "dims")], "ndims": sum(1 for e in C.events if e["ev"] == "dims"),
                            "same": {str(tid): results.get(tid) == alone[name] for tid, name in threads},
                            "errors": {str(k): v for k, v in errors.items()}, "hung": hung})
         keep.clear()
